@@ -29,7 +29,7 @@ EXTENDS Naturals, Sequences, FiniteSets, TLC
 CONSTANTS Labels,         \* label alphabet (set of symbol sequences) for entries and hosts
           MaxLabels,      \* entries have 1..MaxLabels labels
           MaxHostLabels,  \* hosts have 1..MaxHostLabels labels
-          KnownDefects,   \* subset of {"ABORT", "ACECASE"}: named deviations of the code kept in MATCHER
+          KnownDefects,   \* subset of {"ABORT", "ACECASE", "IpComparedAsInteger"}: named deviations kept in MATCHER
           RepEntries, RepHosts, RepCNs,   \* representative typed entries / hosts / CNs (list level)
           MaxSan,         \* SAN lists have 0..MaxSan entries
           FpDepth, FpStride               \* pin perturbation depth, position stride
@@ -115,6 +115,8 @@ DnsClass(dn, h) == IF DnsMustAccept(dn, h) THEN "must" ELSE IF DnsMustReject(dn,
 \* D names the deviations of the code from the design the statement asks for that are kept in MATCHER:
 \*   "ACECASE" (D15) the IDN test is str.startswith("xn--"), case-sensitive, so "XN--*" is an ordinary label
 \*   "ABORT"   (D13) CertificateError for a multi-wildcard entry leaves the SAN loop (list level)
+\*   "IpComparedAsInteger"  NOT a deviation of the code: the plausible simplification int(ip) == int(host_ip) of
+\*             the packed comparison; kept as a named action so that TLC shows it leaves RULES (list level)
 MaxWildcards == 1
 XnTest(l, D) == IF "ACECASE" \in D THEN HasPrefixXN(l) ELSE HasPrefixXN(LowerL(l))
 DnsnameMatchD(dn, h, D) ==
@@ -136,16 +138,19 @@ AceCase(dn, h) == DnsnameMatchD(dn, h, {"ACECASE"}) = "T" /\ DnsnameMatchD(dn, h
 
 -----------------------------------------------------------------------------
 (* Typed entries, hosts, certificates                                         *)
-(* entry  [t, n, a, sp]: t = "DNS"   n = the dNSName text as labels (it may be the text of an IP address:  *)
+(* entry  [t, n, f, a, sp]: t = "DNS"   n = the dNSName text as labels (it may be the text of an IP address:  *)
 (*                                   "10.0.0.1" is <<<<"1","0">>,<<"0">>,<<"0">>,<<"1">>>>)                 *)
-(*                       t = "IP"    a = address id, sp in {"plain","alt","nl"} (spelling of the entry)     *)
+(*                       t = "IP"    (f, a) = the address, sp in {"plain","alt","nl"} (spelling of the entry) *)
 (*                       t = "OTHER" (email / URI ...: never a match by itself)                             *)
-(* host   [k, n, a, sp]: n = the text handed to the API as labels, ALWAYS (str.split("."));                 *)
+(* host   [k, n, f, a, sp]: n = the text handed to the API as labels, ALWAYS (str.split("."));                 *)
 (*                       k = "dns": that text is a name;                                                    *)
-(*                       k = "ip":  that text is a literal of address id a in spelling                      *)
-(*                                  sp in {"plain","alt","zoned","brack","brackzoned"}                      *)
-(* Address ids are opaque: equal id <=> equal address VALUE (packed bytes); the harness checks that the    *)
-(* text n of an ip host is exactly the literal it passes for (a, sp).                                      *)
+(*                       k = "ip":  that text is a literal of the address (f, a) in spelling                *)
+(*                                  sp in {"plain","alt","dotted","zoned","brack","brackzoned"}             *)
+(* An IP address is a PAIR (f, a): family f in {4, 6} and numeric value id a (equal id <=> equal integer   *)
+(* value).  The value set is shared by both families, so (4, a) and (6, a) both occur: 10.0.0.1 and        *)
+(* ::a00:1 (= ::10.0.0.1) are the same integer but DIFFERENT addresses (4 octets vs 16 octets, RFC 9110    *)
+(* 4.3.5).  Equal address <=> equal family AND equal value.  The harness checks that the text n of an ip   *)
+(* host is exactly the literal it passes for (f, a, sp) and that ids and integers agree.                   *)
 NoName == <<>>
 NoCN == NoName
 
@@ -163,15 +168,18 @@ Bracketed(h) == h.k = "ip" /\ h.sp \in {"brack", "brackzoned"}
 RefKind(h, api) == IF h.k = "dns" THEN "dns" ELSE IF Bracketed(h) /\ api = "raw" THEN "other" ELSE "ip"
 
 \* RULES per entry
+SameAddress(e, h) == e.f = h.f /\ e.a = h.a          \* "by address value": family AND value
 EntryMustAccept(e, h, api) ==
     \/ e.t = "DNS" /\ RefKind(h, api) = "dns" /\ DnsMustAccept(e.n, h.n)
-    \/ e.t = "IP" /\ RefKind(h, api) = "ip" /\ e.a = h.a /\ h.sp \in {"plain", "alt", "brack"}   \* zoned: either
+    \/ e.t = "IP" /\ RefKind(h, api) = "ip" /\ SameAddress(e, h)
+       /\ h.sp \in {"plain", "alt", "dotted", "brack"}                                              \* zoned: either
 EntryRejectClause(e, h, api) ==
     LET k == RefKind(h, api) IN
     IF e.t = "OTHER" THEN "NotAnIdentity"
     ELSE IF e.t = "DNS" /\ k = "ip" THEN "DnsEntryVsIpHost"
     ELSE IF e.t = "IP" /\ k = "dns" THEN "IpEntryVsDnsHost"
     ELSE IF e.t = "IP" /\ e.a # h.a THEN "IpNotByValue"          \* k in {"ip", "other"}
+    ELSE IF e.t = "IP" /\ e.f # h.f THEN "IpEntryOtherFamily"    \* same integer, other family: another address
     ELSE IF e.t = "DNS" THEN DnsRejectClause(e.n, h.n)            \* k in {"dns", "other"}
     ELSE "none"                                                   \* IP entry of the same address value
 EntryMustReject(e, h, api) == EntryRejectClause(e, h, api) # "none"
@@ -216,7 +224,9 @@ SeenAsIP(h, api) == h.k = "ip" /\ (~Bracketed(h) \/ api = "wrap")
 EntryMatchD(e, h, api, D) ==   \* "T" / "F" / "ERR" for one SAN entry inside the loop
     IF e.t = "DNS" THEN (IF SeenAsIP(h, api) THEN "F"                    \* host_ip is None and ...
                          ELSE DnsnameMatchD(e.n, h.n, D))                \* incl. the text "[v6]" handed in raw
-    ELSE IF e.t = "IP" THEN (IF SeenAsIP(h, api) /\ e.a = h.a THEN "T" ELSE "F")   \* packed comparison
+    ELSE IF e.t = "IP" THEN (IF /\ SeenAsIP(h, api) /\ e.a = h.a
+                                /\ (e.f = h.f \/ "IpComparedAsInteger" \in D)      \* packed: 4 octets never equal 16
+                             THEN "T" ELSE "F")
     ELSE "F"
 RECURSIVE SanLoopD(_, _, _, _)
 SanLoopD(san, h, api, D) ==
